@@ -42,6 +42,7 @@ type opRef struct {
 
 type system struct {
 	cfg     cfgT
+	maxId   int
 	root    string
 	nodes   []*cluster.ClusterNode
 	alive   []bool
@@ -301,22 +302,23 @@ func (s *system) fresh(n int) []int {
 			out = append(out, id)
 		}
 	}
+	s.maxId = out[len(out)-1] // handed out = used, also when the insert fails or the points are deleted later
 	return out
 }
 
-var maxEver = 0
-
+// maxEver is the largest id this history ever stored (per system: a history's ids
+// must not depend on what the worker process ran before, and stay below the
+// "never stored" id 900).
 func (s *system) maxEver() int {
-	m := 0
 	for id := range s.docs {
-		if id > m {
-			m = id
+		if id > s.maxId {
+			s.maxId = id
 		}
 	}
-	if m > maxEver {
-		maxEver = m
+	if s.maxId >= 890 {
+		panic("harness: stored ids reach the never-stored id 900")
 	}
-	return maxEver
+	return s.maxId
 }
 
 func contains(a []int, x int) bool {
